@@ -281,6 +281,68 @@ func runC12(r *rt.Runner) {
 		}
 	}
 
+	// multi-call clause for CMap files: a file fed line by line (1-6 cuts at line
+	// ends, which are token boundaries in these files; cuts fall inside
+	// begin.../end... blocks, between entries, between the dictionary's
+	// definitions) gives the state of the single call
+	nCM := r.N(1500, 30000)
+	for k := 0; k < nCM; k++ {
+		r.Case("multi-call-cmap", func(c *rt.C) {
+			rng := c.Rand()
+			text := ref.RenderFile(rng, []*ref.MCMap{ref.GenCMap(rng, "Multi")})
+			var ends []int
+			for i, b := range text {
+				if b == '\n' && i+1 < len(text) {
+					ends = append(ends, i+1)
+				}
+			}
+			if len(ends) < 2 {
+				c.Skip("file has too few lines to split")
+				return
+			}
+			nCuts := 1 + rng.IntN(6)
+			cutSet := map[int]bool{}
+			for i := 0; i < nCuts; i++ {
+				cutSet[ends[rng.IntN(len(ends))]] = true
+			}
+			var cuts []int
+			for p := range cutSet {
+				cuts = append(cuts, p)
+			}
+			sort.Ints(cuts)
+			c.SetDetail(func() string { return fmt.Sprintf("CMap file cut at byte offsets %v:\n%q", cuts, head(text, 3000)) })
+			one := postscript.NewInterpreter()
+			one.MaxOps = 2_000_000
+			err1 := one.Execute(bytes.NewReader(text))
+			multi := postscript.NewInterpreter()
+			multi.MaxOps = 2_000_000
+			var err2 error
+			prev := 0
+			for _, p := range append(cuts, len(text)) {
+				if err2 = multi.Execute(bytes.NewReader(text[prev:p])); err2 != nil {
+					break
+				}
+				prev = p
+			}
+			c.Eval()
+			c.Count("CMap files fed in several calls")
+			if (err1 == nil) != (err2 == nil) {
+				c.Violation("multi-call-cmap|error", fmt.Sprintf("in one call the file gives %v, fed in %d calls (cuts at %v) it gives %v", err1, len(cuts)+1, cuts, err2), "")
+				return
+			}
+			if err1 != nil {
+				c.Count("CMap files that fail (both ways)")
+				return
+			}
+			one.DSC, multi.DSC = nil, nil // comment lines in the middle of a line are a known difference at call boundaries (DESIGN.md 15)
+			want, got := libStateDigest(env.bt, one), libStateDigest(env.bt, multi)
+			if want != got {
+				c.Violation("multi-call-cmap|state", fmt.Sprintf("fed in %d calls (cuts at byte offsets %v) the final state differs from the single call %s", len(cuts)+1, cuts, firstDiff(want, got)), "")
+			}
+			c.Nontrivial(append([]byte(fmt.Sprint(cuts)), text...), func() string { return fmt.Sprintf("%d bytes, cuts %v", len(text), cuts) })
+		})
+	}
+
 	// multi-call clause, failing programs: every split position
 	for _, parts := range c12FailingPrograms {
 		parts := parts
